@@ -128,7 +128,7 @@ def spell(rng, kind, names_used=None, for_array=None):
                            b'123456789.125', b'1e308', b'4.9e-324', b'1e-400', b'00.5'])
     if kind == 'STRING':
         return rng.choice([b'""', b'"x"', b'"a b"', b'"\\n\\t\\r\\f"', b'"\\x41\\x7a"', b'"\\\\ \\""', b'"\\a\\b\\v"', b'"\\q"', b'"line1\nline2"',
-                           b'"\\x4"', b'"\\xZZ"', b'"caf\xc3\xa9"', b'"/* not a comment */"', b'"#x"', b'"\\x00tail"', b'"' + b'y' * 70 + b'"'])
+                           b'"\\x4"', b'"\\xZZ"', b'"caf\xc3\xa9"', b'"three\nraw\nlines"', b'"a\n\n\n\nb"', b'"/* not a comment */"', b'"#x"', b'"\\x00tail"', b'"' + b'y' * 70 + b'"'])
     if kind == 'NAME':
         return rng.choice(NAMES)
     if kind == 'EQ':
